@@ -17,14 +17,16 @@ impl AlcCodec for AlcRaptor {
         | FTI <127 8bits|  LEN (8bit)   |
         +-+-+-+-+-+-+-+-+-+-+-+-+-+-+-+-+-+-+-+-+-+-+-+-+-+-+-+-+-+-+-+-+
         |                      Transfer Length (F)                      |
-        +               +-+-+-+-+-+-+-+-+-+-+-+-+-+-+-+-+-+-+-+-+-+-+-+-+
-        |               |    Reserved   |           Symbol Size (T)     |
+        +                               +-+-+-+-+-+-+-+-+-+-+-+-+-+-+-+-+
+        |                               |           Reserved            |
         +-+-+-+-+-+-+-+-+-+-+-+-+-+-+-+-+-+-+-+-+-+-+-+-+-+-+-+-+-+-+-+-+
-        |             Z                 |      N        |       Al      |
+        |      Symbol Size (T)          |             Z                 |
         +-+-+-+-+-+-+-+-+-+-+-+-+-+-+-+-+-+-+-+-+-+-+-+-+-+-+-+-+-+-+-+-+
-        | PADDING (16 bits)   ??        |
+        |      N        |       Al      |
+        +-+-+-+-+-+-+-+-+-+-+-+-+-+-+-+-+
 
-        Transfer Length (F): 40-bit unsigned integer
+        RFC 5053 section 3.2.2 and 3.2.3:
+        Transfer Length (F): encoded as a 48-bit unsigned integer, followed by 16 reserved bits
         Symbol Size (T): 16-bit unsigned integer.
         The number of source blocks (Z): 16-bit unsigned integer.
         The number of sub-blocks (N): 8-bit unsigned integer.
@@ -32,18 +34,16 @@ impl AlcCodec for AlcRaptor {
         */
         let len: u8 = 4;
         let ext_header: u16 = (lct::Ext::Fti as u16) << 8 | len as u16;
-        let transfer_header: u64 =
-            (transfer_length << 24) | (oti.encoding_symbol_length as u64 & 0xFFFF);
+        let transfer_header: u64 = transfer_length << 16;
 
         debug_assert!(oti.scheme_specific.is_some());
         if let SchemeSpecific::Raptor(raptor) = oti.scheme_specific.as_ref().unwrap() {
-            let padding: u16 = 0;
             data.extend(ext_header.to_be_bytes());
             data.extend(transfer_header.to_be_bytes());
+            data.extend(oti.encoding_symbol_length.to_be_bytes());
             data.extend(raptor.source_blocks_length.to_be_bytes());
             data.extend(raptor.sub_blocks_length.to_be_bytes());
             data.extend(raptor.symbol_alignment.to_be_bytes());
-            data.extend(padding.to_be_bytes());
             lct::inc_hdr_len(data, len);
         } else {
             debug_assert!(false);
@@ -64,11 +64,11 @@ impl AlcCodec for AlcRaptor {
             return Err(FluteError::new("Wrong extension size"));
         }
 
-        let transfer_length = u64::from_be_bytes(fti[2..10].as_ref().try_into().unwrap()) >> 24;
-        let symbol_size = u16::from_be_bytes(fti[8..10].as_ref().try_into().unwrap());
-        let z = u16::from_be_bytes(fti[10..12].as_ref().try_into().unwrap());
-        let n = fti[12];
-        let al = fti[13];
+        let transfer_length = u64::from_be_bytes(fti[2..10].as_ref().try_into().unwrap()) >> 16;
+        let symbol_size = u16::from_be_bytes(fti[10..12].as_ref().try_into().unwrap());
+        let z = u16::from_be_bytes(fti[12..14].as_ref().try_into().unwrap());
+        let n = fti[14];
+        let al = fti[15];
 
         if symbol_size == 0 {
             return Err(FluteError::new("Symbol size is null"));
